@@ -140,6 +140,41 @@ Proof.
 Qed.
 Print Assumptions every_history_of_the_source_is_a_history_of_the_model.
 
+(* ---- a property of the model becomes a property of the source: C04's "nothing is lost" ---- *)
+Lemma exec_rec_is_final_and_trace ops : forall m, exec_with step_rec m ops = (final_state m ops, trace m ops).
+Proof.
+  induction ops as [|o r IH]; intros m; [reflexivity|]. cbn [exec_with final_state trace]. unfold step.
+  destruct (step_rec m o) as [[m' rs]|e]; cbn [bind]; rewrite IH; reflexivity.
+Qed.
+
+(* from market setup, the first clock step and then ANY list of valid operations, carried out by the generated methods, end in the
+   model's final state and emit the model's trace: every Level-M theorem stated over final_state / trace is a theorem about the source *)
+Theorem histories_of_the_source_from_setup : forall id tk mp0 f0 ops, Forall valid_op ops ->
+  exec_with step_src (init_market id tk mp0) (OTick f0 :: ops) =
+  (final_state (init_market id tk mp0) (OTick f0 :: ops), trace (init_market id tk mp0) (OTick f0 :: ops)).
+Proof.
+  intros id tk mp0 f0 ops Hv. rewrite <- exec_rec_is_final_and_trace.
+  cbn [exec_with step_src step_rec]. rewrite gen_update_time_is_tick. destruct (tick (init_market id tk mp0) f0) as [m1 rs1] eqn:Et.
+  assert (Hm1 : m1 = fst (tick (init_market id tk mp0) f0)) by (rewrite Et; reflexivity).
+  rewrite every_history_of_the_source_is_a_history_of_the_model; [reflexivity| | | |exact Hv].
+  - rewrite Hm1. apply tick_ok. apply book_ok_init.
+  - rewrite Hm1. unfold gone_here. cbn. constructor.
+  - rewrite Hm1. cbn. lia.
+Qed.
+Print Assumptions histories_of_the_source_from_setup.
+
+(* ... for instance C04's "nothing is lost": for every accepted order, accepted volume = fills + what rests + the volume of its first
+   terminal record; a resting order has had no terminal event *)
+Theorem nothing_is_lost_along_histories_of_the_source : forall id tk mp0 f0 ops, Forall valid_op ops ->
+  let '(m, rs) := exec_with step_src (init_market id tk mp0) (OTick f0 :: ops) in
+  forall i v0, accepted rs i = Some v0 ->
+    v0 = filled rs i + rest_vol m i + tv rs i /\ (rest_vol m i <> 0 -> term rs i = None) /\ 0 <= rest_vol m i.
+Proof.
+  intros id tk mp0 f0 ops Hv. rewrite (histories_of_the_source_from_setup id tk mp0 f0 ops Hv).
+  apply (nothing_lost id tk mp0 (OTick f0 :: ops)). constructor; [exact I|exact Hv].
+Qed.
+Print Assumptions nothing_is_lost_along_histories_of_the_source.
+
 (* non-vacuity: the premises hold of a market after its first clock step, and a history with an order on each side, a round, a cancel of
    the rest and a clock step runs through the generated functions to a trade and a cancellation *)
 Example source_history_example :
